@@ -704,6 +704,89 @@ fn shape_case(shapes: &[Vec<usize>], offsets: &[usize], i: usize) -> CaseResult 
 }
 
 // ------------------------------------------------------------------------------------------------
+// (iv) blocks evaluated once per selected value: the block's status over all values
+
+const VALUE_SITES: [&str; 5] = ["type-block", "file-level-type-block", "query-block", "filter-block", "some-query-block"];
+
+/// all status vectors of 1..=3 values, each value's block forced to PASS / FAIL / SKIP by a marker
+fn value_vectors() -> Vec<Vec<St>> {
+    let mut out = vec![];
+    for n in 1..=3usize {
+        for mut idx in 0..3usize.pow(n as u32) {
+            let mut v = vec![];
+            for _ in 0..n {
+                v.push([St::Pass, St::Fail, St::Skip][idx % 3]);
+                idx /= 3;
+            }
+            out.push(v);
+        }
+    }
+    out
+}
+
+fn values_case(i: usize) -> CaseResult {
+    let vectors = value_vectors();
+    let site = i % VALUE_SITES.len();
+    let vec_ = &vectors[i / VALUE_SITES.len()];
+    // every resource carries the status its block must get: the body is
+    //   when Properties.st != 'skip' { Properties.st == 'pass' }
+    let res: Vec<(String, V)> = vec_
+        .iter()
+        .enumerate()
+        .map(|(k, st)| {
+            (format!("r{}", k), V::Map(vec![("Type".into(), V::s("AWS::X::Y")), ("Properties".into(), V::Map(vec![("st".into(), V::s(match st { St::Pass => "pass", St::Fail => "fail", St::Skip => "skip" }))]))]))
+        })
+        .collect();
+    let doc = V::Map(vec![("Resources".into(), V::Map(res)), ("a".into(), V::Int(1))]).to_json();
+    let body = "when Properties.st != 'skip' {\n      Properties.st == 'pass'\n    }";
+    let (rules, name) = match VALUE_SITES[site] {
+        "type-block" => (format!("rule t {{\n  AWS::X::Y {{\n    {}\n  }}\n}}\n", body), "t"),
+        "file-level-type-block" => (format!("AWS::X::Y {{\n    {}\n}}\n", body), "default"),
+        "query-block" => (format!("rule t {{\n  Resources.* {{\n    {}\n  }}\n}}\n", body), "t"),
+        "filter-block" => (format!("rule t {{\n  Resources.*[ Type == 'AWS::X::Y' ] {{\n    {}\n  }}\n}}\n", body), "t"),
+        _ => (format!("rule t {{\n  some Resources.* {{\n    {}\n  }}\n}}\n", body), "t"),
+    };
+    let all = |s: St| vec_.iter().all(|x| *x == s);
+    let any = |s: St| vec_.iter().any(|x| *x == s);
+    // FAIL iff one value's block failed, PASS iff none failed and one passed, else SKIP; with
+    // `some`: PASS iff one value's block passed, FAIL iff none passed and one failed, else SKIP
+    let want = if VALUE_SITES[site] == "some-query-block" {
+        if any(St::Pass) {
+            St::Pass
+        } else if any(St::Fail) {
+            St::Fail
+        } else {
+            St::Skip
+        }
+    } else if any(St::Fail) {
+        St::Fail
+    } else if any(St::Pass) {
+        St::Pass
+    } else {
+        St::Skip
+    };
+    let case = json!({"kind": "values", "site": VALUE_SITES[site], "doc": doc, "rules": rules, "rule": name, "want": want.text(), "vector": vec_.iter().map(|s| s.text()).collect::<Vec<_>>()});
+    let (v, rec) = verdict(&doc, &rules);
+    let got = match &v {
+        Verdict::Ok { rules: rs, .. } => rs.iter().find(|(n, _)| strip_file_prefix(n) == name).map(|(_, s)| *s),
+        _ => None,
+    };
+    if got != Some(want) {
+        return CaseResult::Fail(Failure {
+            msg: format!("{} over values whose blocks are {:?}: rule {} must be {} but the tool reports {}", VALUE_SITES[site], vec_.iter().map(|s| s.text()).collect::<Vec<_>>(), name, want.text(), v.short()),
+            sig: format!("c02:values:{}", VALUE_SITES[site]),
+            case,
+        });
+    }
+    if let Some(rec) = rec {
+        if let Err(e) = check_record(&rec, None) {
+            return CaseResult::Fail(Failure { msg: e, sig: "c02:record-inconsistent".into(), case });
+        }
+    }
+    CaseResult::Pass(Info { nontrivial: !all(vec_[0]), key: hash_case(&[&doc, &rules]), classes: vec![format!("values-site:{}", VALUE_SITES[site]), format!("values:{}", vec_.len())], evals: 1, sample: if i % 17 == 0 { Some(case) } else { None } })
+}
+
+// ------------------------------------------------------------------------------------------------
 // (iii) several documents in one invocation: every record of the stream is checked on its own
 
 /// a variant of `doc`: one top-level or Resources entry dropped / one scalar replaced
@@ -877,6 +960,15 @@ fn multi_case(u: &mut Choices, sz: Size) -> CaseResult {
 }
 
 pub fn replay(case: &J) -> CaseResult {
+    if case["kind"] == "values" {
+        let vectors = value_vectors();
+        let site = VALUE_SITES.iter().position(|s| Some(*s) == case["site"].as_str()).unwrap_or(0);
+        let want: Vec<St> = case["vector"].as_array().map(|a| a.iter().filter_map(|x| x.as_str().and_then(St::parse)).collect()).unwrap_or_default();
+        return match vectors.iter().position(|v| *v == want) {
+            Some(vi) => values_case(vi * VALUE_SITES.len() + site),
+            None => CaseResult::Discard("unknown-values-case"),
+        };
+    }
     if case["kind"] == "multi" {
         let docs: Vec<String> = case["docs"].as_array().map(|a| a.iter().filter_map(|x| x.as_str().map(String::from)).collect()).unwrap_or_default();
         let mut evals = 0;
@@ -916,7 +1008,7 @@ pub fn replay(case: &J) -> CaseResult {
 
 pub fn run(tier: Tier, seed: u64) -> i32 {
     let spec = EvidenceSpec {
-        rule: "Stage 'shapes' enumerates CNF shapes (lines x alternatives per line) x call site of the combinator {rule body, rule when, when-block condition, when-block body, query-block body, type-block body, filter, default rule}; one case evaluates ALL 3^leaves assignments of forced PASS/FAIL/SKIP leaf clauses of that shape at that site and compares the rule's status with the property's combinator, and also runs the record checker on every record. Stage 'random' generates wide programs (type blocks, parameterised rules, nested when/blocks, rule references) on CloudFormation-shaped documents and recomputes every composite node of the verbose record from its children's recorded statuses (rule references against the referenced RuleCheck, negation taken from the parse tree); 1 in 8 cases also checks the root status against the non-verbose library output and the validate exit code. Stage 'multi-document' gives 2-3 documents (variants of one another) to ONE `validate --print-json` invocation (file arguments or a directory), runs the record checker on every record of the stream, requires each record to explain the same statuses as the document evaluated on its own, and the exit code to follow the record roots. Non-trivial: the record contains a composite with >=2 children of unequal status (shapes: an assignment with unequal leaves); distinct by hash of the texts / (shape, site).".into(),
+        rule: "Stage 'shapes' enumerates CNF shapes (lines x alternatives per line) x call site of the combinator {rule body, rule when, when-block condition, when-block body, query-block body, type-block body, filter, default rule}; one case evaluates ALL 3^leaves assignments of forced PASS/FAIL/SKIP leaf clauses of that shape at that site and compares the rule's status with the property's combinator, and also runs the record checker on every record. Stage 'values' enumerates every PASS/FAIL/SKIP vector of 1-3 selected values (resources whose block status is forced by a marker property) for the blocks that run once per value - type block in a rule and at file level, query block, filter block, `some` query block - and compares the rule's status with the statement's rule (FAIL iff one value's block failed, PASS iff none failed and one passed, else SKIP; `some`: PASS iff one passed). Stage 'random' generates wide programs (type blocks, parameterised rules, nested when/blocks, rule references) on CloudFormation-shaped documents and recomputes every composite node of the verbose record from its children's recorded statuses (rule references against the referenced RuleCheck, negation taken from the parse tree); 1 in 8 cases also checks the root status against the non-verbose library output and the validate exit code. Stage 'multi-document' gives 2-3 documents (variants of one another) to ONE `validate --print-json` invocation (file arguments or a directory), runs the record checker on every record of the stream, requires each record to explain the same statuses as the document evaluated on its own, and the exit code to follow the record roots. Non-trivial: the record contains a composite with >=2 children of unequal status (shapes: an assignment with unequal leaves); distinct by hash of the texts / (shape, site).".into(),
         assumptions: vec![
             "leaf statuses are taken from the record itself (local consistency); leaves are judged by C01".into(),
             "negation of rule references and the body size of `some` blocks are read from the tool's own parse tree (parser, not evaluator)".into(),
@@ -933,6 +1025,7 @@ pub fn run(tier: Tier, seed: u64) -> i32 {
             Tier::Thorough => shape_count(3, 3),
         };
         run.run_enum("shapes", shapes.len() * SITES.len(), |i| shape_case(&shapes, &[], i));
+        run.run_enum("values", value_vectors().len() * VALUE_SITES.len(), values_case);
         let sz = tier.pick(Size::quick(), Size::thorough());
         run.run_random("random", tier.pick(60_000, 1_500_000), tier.pick(1200, 2400), |u| random_case(u, sz));
         run.run_random("multi-document", tier.pick(12_000, 300_000), tier.pick(1600, 2800), |u| multi_case(u, sz));
